@@ -19,7 +19,8 @@ P("C19", "other", "call-graph reachability + effect summaries over MIR (who-may-
   TB + " Not decided: nothing else; 'observable state unchanged' follows from the absence of writes.", "DESIGN.md 3/C19")
 P("C20", "other", "call-graph hash-cost counting with loop discipline over MIR",
   "Structural clause decided: hash sites (calls of Hash::hash on the key) are counted along acyclic call/CFG paths per public "
-  "operation (<= 2 outside loops); a loop that reaches a hash site must retire (remove or relocate) one entry per iteration; "
+  "operation (<= 2 outside loops); a loop that reaches a hash site must retire (remove or relocate) one entry per iteration (any number "
+  "of such loops in sequence, never nested); "
   "only the table-rebuilding operations reach the per-held-entry rehash loop, once; traversals, clear, drain and the LRU/MRU peeks "
   "reach no hash site.",
   TB + " Not decided: cost of Eq comparisons / probe lengths.", "DESIGN.md 3/C20")
@@ -51,24 +52,30 @@ P("C01", "proof", "abstract interpretation of MIR: relational linear domain + gh
   "Inductive proof by abstract interpretation (lmv/absint.py): assuming current_size <= max_size and current_size = sum of recorded "
   "sizes on entry, every normal exit of every &mut-self public method, every constructor, clone and the drain protocol re-establishes "
   "current_size <= max_size, for symbolic sizes, limits and table contents (no bound on history length); every subtraction involving "
-  "sizes is shown not to wrap. All obligations must be discharged.", E3TB + " Unwind exits are C16's.", "DESIGN.md 3/C01")
+  "sizes is shown not to wrap and every addition (current_size += ..., size + growth, a rewritten fit test) is shown to stay <= "
+  "usize::MAX for limits up to usize::MAX; the bound is also shown at every call into user code made while the cache is being "
+  "modified (a caught panic there ends the operation; every later operation that returns must still see the bound), except user "
+  "code run by mutate after its closure returned, where the value has already grown. All obligations must be discharged.",
+  E3TB + " Assumes A-size (entry_size of one pair is representable).", "DESIGN.md 3/C01, 8.3")
 P("C02", "proof", "abstract interpretation of MIR with ghost sum G(table) + term check of entry_size",
   "Inductive proof that current_size = sum of the sizes recorded in the table's entries at every normal exit (same run as C01), that "
   "every entry inserted into a table records heap_size(key)+heap_size(value)+size_of::<Entry>() (obligation at each table insert), that "
   "a mutated entry is re-recorded with its new size, and that entry_size is that very sum (term check).",
-  E3TB + " Assumes A-clone (clones report the same heap_size).", "DESIGN.md 3/C02")
+  E3TB + " A-clone is not assumed: clone copies recorded sizes (DESIGN.md 8.3).", "DESIGN.md 3/C02, 8.3")
 P("C03", "other", "abstract interpretation (eviction-necessity obligations) + call-graph/who-may-evict + dominance rules",
   "Clauses decided: (1) the LRU-side entry is removed unasked only under insert, mutate and set_max_size (E3 events + call graph); "
   "(2) at every such eviction site the abstract state entails 'does not fit yet' (current_size + incoming size > limit), so an exact "
   "fit evicts nothing and the evicted run is minimal (sufficiency is C01); (3) the evicted key is read from the seal's LRU link in every "
-  "iteration; (4) in insert the duplicate has left the table before any eviction, in mutate the entry is promoted before any eviction.",
+  "iteration; (4) in insert the duplicate has left the table before any eviction, in mutate the entry is promoted before any eviction "
+  "and the entry reached at the LRU end is provably not the mutated one (it is spared).",
   E3TB + " Not decided: that the seal's LRU link is the least recently used entry for every history (C05/C07).", "DESIGN.md 3/C03")
 P("C10", "other", "abstract interpretation with partitioning on the returned enum (path-condition equivalences) + effect analysis",
   "Clauses decided: for insert and try_insert every exit partition's path condition implies the specified condition on "
   "(entry_size, max_size, current_size) and, the partitions being exhaustive, the classification is exact; error payload integers equal "
   "entry_size / max_size / max_size - current_size; the key and value in every error are the very arguments; on every Err exit "
-  "current_size, max_size, the table's ghost sum, len and the table identity are unchanged and no list/table writer ran; a successful "
-  "try_insert adds exactly one entry.", E3TB, "DESIGN.md 3/C10")
+  "current_size, max_size, the table's ghost sum, len, the table identity and the usage order (nothing was promoted) are unchanged; a "
+  "successful try_insert adds exactly one entry; the additions on the way cannot exceed usize::MAX (a fit test that can overflow "
+  "misclassifies).", E3TB, "DESIGN.md 3/C10, 8.3")
 P("C11", "other", "abstract interpretation with ghost heap sizes of user values + dominance rules",
   "Clauses decided: mutate has exactly the exits Ok(None) (state unchanged, closure not reached), Ok(Some) (entry re-recorded with "
   "heap(key)+heap(value')+size_of and <= max_size; promoted on both branches) and Err(EntryTooLarge) (iff new size > max_size; payload "
@@ -84,7 +91,8 @@ P("C13", "other", "abstract interpretation with a capacity ghost + effect analys
   "Clauses decided: capacity operations leave current_size, max_size, size sum and len unchanged (E3); reserve/try_reserve exit with "
   "capacity >= len + additional; a failing try_reserve keeps the original table and runs no effect; growth on insertion only behind the "
   "failure edge of the no-grow insert and with the requested capacity max(2*capacity, 1); shrink_to reallocates only when "
-  "capacity > max(len, min) and requests exactly that.", E3TB + " Not decided: hashbrown's bucket rounding (numeric constants of the growth bound).",
+  "capacity > max(len, min) and requests exactly that; no growing hashbrown primitive (insert/reserve/try_reserve/shrink_to) is ever "
+  "called on a table of entries (it would move buckets under the intrusive list).", E3TB + " Not decided: hashbrown's bucket rounding (numeric constants of the growth bound).",
   "DESIGN.md 3/C13")
 P("C14", "other", "abstract interpretation (clone post-state) + provenance analysis + term rules",
   "Clauses decided: the clone's current_size, max_size, len and size sum equal the source's and the source's are unchanged (E3, premise "
@@ -99,19 +107,24 @@ P("C16", "other", "enumeration of user-call sites with unwind-consistency flags 
 P("C17", "other", "typestate rule 'no safety debt in Drop' + abstract interpretation of the constructor post-state",
   "Decided: every iterator type whose methods reach the bitwise copy-out primitive either owns the cache by value (forgetting it forgets "
   "the cache) or, if it holds &mut, its constructor already leaves the cache empty and detached (E3 post-state: size 0, no entries, "
-  "seal reset) so that Drop owes nothing for soundness; borrowing iterators have no Drop and reach no writer.", E3TB, "DESIGN.md 3/C17")
+  "seal reset) so that Drop owes nothing for soundness, and its step methods (next, next_back, ...) store neither a cache field nor a "
+  "link of a list node (they cannot re-attach the cache to entries the iterator owns); borrowing iterators have no Drop and reach no "
+  "writer.", E3TB, "DESIGN.md 3/C17, 8.5")
 P("C05", "other", "abstract interpretation with must/may promotion ghosts + store-set comparison of the list primitives + call-graph who-may-promote",
   "Clauses decided: (1) only insert, try_insert, get, get_entry, get_lru, touch and mutate can move an entry to the MRU end, every "
   "other &mut method provably promotes nothing (may-ghost empty at every exit), operations through & write nothing (C19); (2) on every "
   "path of the promoting methods a found/inserted entry is spliced in at the MRU end before a success return (must-ghost), and failure "
   "exits (miss, rejected insertion) have promoted nothing; (3) the splice-in / unlink primitives write exactly the four / two links of "
-  "a doubly-linked splice; (4) relocation and clone rebuild the list in traversal order.",
+  "a doubly-linked splice, and a node is spliced in only after it was unlinked or when it is new (no double link); (4) relocation and "
+  "clone rebuild the list in traversal order.",
   E3TB + " Not decided: 'order of last access for every history' needs the list-shape invariant (C07).", "DESIGN.md 3/C05")
 P("C07", "other", "abstract interpretation with pending-link ghosts + handle-validity (typestate) rules",
   "Partial. Decided: every entry inserted into the cache's table is linked before the method returns or user code runs; no link of the "
   "cache's nodes points into a table the cache does not own when a method returns or user code runs; handles obtained before a "
   "reallocation/removal are not dereferenced afterwards; relocation rebuilds both directions; seal allocated once, initialised to "
-  "itself, freed once after the table was drained; iterator cursors are dereferenced only behind the null test. Not decided: the "
+  "itself, freed once after the table was drained; iterator cursors are dereferenced only behind the null test; every entry is filed "
+  "under the hash of its own key built with the hash builder of the cache that receives it; hashbrown never relocates buckets itself; a "
+  "table returns to the cache only after its moved-out entries were marked empty; no node is linked twice. Not decided: the "
   "global list shape (mirror-image traversals of exactly len() entries) and aliasing-model UB.",
   E3TB, "DESIGN.md 3/C07")
 P("C15", "other", "def-use term analysis of the retain loop (one unrolled iteration per path) + abstract interpretation",
@@ -133,7 +146,8 @@ P("C04", "other", "term analysis of every table call site (hash/eq agreement) + 
   "hashbrown does the probing; what lru-mem must get right is decided: every lookup/removal hashes k with the cache's own hash builder "
   "through the key-hash function and compares with the same k through Borrow+Eq; every table insert (and every caller that passes a "
   "precomputed hash) uses the hash of the inserted entry's own key; an entry is inserted into the cache's table only for a key the "
-  "table just reported absent / removed, or into a table created empty by the operation (E3); results are projected from the one "
+  "table just reported absent / removed, or into a table created empty by the operation (E3); a hash handed down together with an "
+  "entry is built with the hash builder of the receiving cache; hashbrown never relocates buckets itself; results are projected from the one "
   "entry the lookup produced; a rejected insertion removed nothing, the duplicate leaves before eviction, reallocation keeps all "
   "entries (shared E3 obligations).", E3TB + " Not decided: hashbrown internals; Borrow coherence of user types.", "DESIGN.md 3/C04")
 NOT_CLAIMED = {}
